@@ -71,7 +71,7 @@ def classify(rc, so, se, fname):
     if "panic:" in se or "fatal error:" in se or rc == 2:
         return "panic"
     lines = so.split("\n")
-    if rc == 1 and so.strip().endswith("timeout"):
+    if rc in (0, 1) and "timeout" in so.split("\n"):
         return "hang"
     if rc != 0:
         return "exit-%d" % rc
